@@ -688,7 +688,9 @@ def build_table(h, ents, sizes=None):
 def check_C08(ctx):
     proofs_or_violation(ctx, ['Properties_C08.v'])
     pool = get_pool()
-    fam = [i for i, t in enumerate(pool.types) if t[0] == 'tab' and t[1] == nopgen.FAMILY_HASH]
+    # the version family, and the tables that hold a table in an entry (frames inside frames)
+    fam = [i for i, t in enumerate(pool.types) if t[0] == 'tab' and 'handle' not in pool.caps[i] and
+           (t[1] == nopgen.FAMILY_HASH or any(et[0] == 'tab' for _, _, et in t[2]))]
     S = CodecStreams(ctx, nvals=(30 if ctx.quick else 300), types=fam)
     rows = [r for r in S.run_enc() if r['h'] and r['h']['st'] == '0']
     items = []
@@ -727,8 +729,40 @@ def check_C08(ctx):
                 j = ctx.rng.randrange(len(body))
                 g = ents[:k] + [(eid, body[:j] + [body[j] ^ ctx.rng.choice([1, 0x80, 0xff, 0x3c])] + body[j + 1:])] + ents[k + 1:]
                 items.append((r['tid'], build_table(h, g), '-', ('corrupt', None, None), None))
+        # the same manipulations one level down: a table stored in an entry of this table.  The inner frame ends
+        # inside the outer frame, so the outer entry has to account for what the inner table skipped.
+        for k, (eid, body) in enumerate(ents):
+            if not body or body[0] != 0xb5:
+                continue
+            try:
+                ih, ients, irest = parse_table(bytes(body).hex())
+            except Exception:
+                continue
+            if irest:
+                continue
+            variants = []
+            if len(ients) > 1:
+                q = ients[:]
+                ctx.rng.shuffle(q)
+                variants.append(('permute', q))
+            for j, (ie, ib) in enumerate(ients):
+                for pad in (1, 5):
+                    variants.append(('grow', ients[:j] + [(ie, ib + [ctx.rng.randrange(256) for _ in range(pad)])] + ients[j + 1:]))
+            iknown = {ie for ie, _ in ients} | {i2 for i2, _, _ in pool.types[r['tid']][2][[e[0] for e in pool.types[r['tid']][2]].index(eid)][2][2]} if eid in [e[0] for e in pool.types[r['tid']][2]] and pool.types[r['tid']][2][[e[0] for e in pool.types[r['tid']][2]].index(eid)][2][0] == 'tab' else {ie for ie, _ in ients}
+            u1, u2 = [x for x in (9999, 9998, 9997, 70000, 70001, 70002) if x not in iknown][:2]
+            variants.append(('unknown', [(u1, [1, 2, 3])] + ients + [(u2, [0xff] * 4), (u1, [])]))
+            for kind2, iv in variants:
+                nb = list(bytes.fromhex(build_table(ih, iv)))
+                g = ents[:k] + [(eid, nb)] + ents[k + 1:]
+                hx = build_table(h, g)
+                items.append((r['tid'], hx, '-', (kind2, val, hexlen(hx)), None))
+                # and with the outer entry grown as well
+                g2 = ents[:k] + [(eid, nb + [0xee, 0xee])] + ents[k + 1:]
+                hx2 = build_table(h, g2)
+                items.append((r['tid'], hx2, '-', (kind2, val, hexlen(hx2)), None))
         # unknown / deleted ids, also repeated
-        unk = [(9999, [1, 2, 3]), (9999, []), (70000, [0xff] * 5)]
+        f1, f2 = [x for x in (9999, 9998, 9997, 70000, 70001, 70002) if x not in known][:2]
+        unk = [(f1, [1, 2, 3]), (f1, []), (f2, [0xff] * 5)]
         items.append((r['tid'], build_table(h, unk[:1] + ents + unk[1:]), '-', ('unknown', val, None), None))
         dels = [i for i, act in known.items() if not act]
         if dels:
@@ -994,6 +1028,44 @@ def check_C16(ctx):
                 exp_used += int(c_[1:].split(':')[0])
             elif c_[0] in 'PD' and (kind == 'r' and c_ == 'P' or kind == 'w' and c_[0] == 'D'):
                 exp_used = lim
+        # a call that asks for more than the limit leaves must be refused (12 / 13) and must not reach the wrapped object
+        left_ = lim
+        may_reach_ = 0
+        for c_, o_ in zip(calls_, outs_):
+            ok_ = (o_ == '0' or o_.startswith('0:'))
+            need_ = None
+            if c_ == 'r' or c_[0] == 'w':
+                need_ = 1
+            elif c_[0] == 'R':
+                w_, n_ = c_[1:].split('x'); need_ = int(w_) * int(n_)
+            elif c_[0] == 'W':
+                need_ = len(c_.split('x', 1)[1]) // 2
+            elif c_[0] == 'S' or (c_[0] == 'E' and kind == 'r'):
+                need_ = int(c_[1:])
+            elif c_[0] == 'K':
+                need_ = int(c_[1:].split(':')[0])
+            elif c_[0] == 'P' and kind == 'w':
+                need_ = int(c_[1:])
+            over_ = need_ is not None and need_ > left_
+            if over_ and ok_:
+                ctx.violate('limit-exceeded', 'call %s asks for %d bytes with %d left under the limit %d but was not refused: %s -> %s' % (c_, need_, left_, lim, line[:200], f['res'][:120]),
+                            {'case': line, 'output': o})
+                break
+            if not over_:
+                may_reach_ += 1               # forwarded (and possibly failed there)
+            if not ok_:
+                continue
+            if c_[0] in 'EP' and not (kind == 'r' and c_ == 'P'):
+                continue                      # Ensure / Prepare consume nothing
+            if kind == 'r' and c_ == 'P' or kind == 'w' and c_[0] == 'D':
+                left_ = 0
+            elif need_ is not None:
+                left_ -= need_
+        else:
+            inner_ = [x for x in f.get('inner', '-').split(',') if x and x != '-']
+            if len(inner_) > may_reach_:
+                ctx.violate('limit-exceeded', 'a call refused by the limit still reached the wrapped object: %d calls fit under the limit %d but the wrapped object saw %s: %s -> %s' %
+                            (may_reach_, lim, f.get('inner', '-')[:160], line[:200], f['res'][:120]), {'case': line, 'output': o})
         if used != exp_used:
             ctx.violate('miscounted', 'the bounded %s reports %d bytes used, the successful calls add up to %d: %s -> %s' % ('reader' if kind == 'r' else 'writer', used, exp_used, line[:200], o[:160]),
                         {'case': line, 'output': o, 'expected_used': exp_used})
